@@ -109,6 +109,19 @@ static int32_t h_dispatch_add(enum qb_loop_priority p, int32_t fd, int32_t ev, v
 	e->fd = fd; e->ev = ev; e->data = data; e->fn = fn; e->live = 1; e->gen = ++pgen;
 	return 0;
 }
+static void *sending_for;      /* connection the application is sending on right now */
+ssize_t send(int fd, const void *buf, size_t n, int flags)
+{
+	if (sending_for) {
+		struct pent *e = pfind(fd);
+		if (e && e->fn == qb_ipcs_dispatch_connection_request && e->data != sending_for) {
+			int e_ = errno;
+			vt_ev("ForeignFd"); vt_i(fd); vt_res(); vt_end();
+			errno = e_;
+		}
+	}
+	return sendto(fd, buf, n, flags, NULL, 0);
+}
 static int32_t h_dispatch_mod(enum qb_loop_priority p, int32_t fd, int32_t ev, void *data, qb_ipcs_dispatch_fn_t fn)
 {
 	struct pent *e = pfind(fd);
@@ -409,7 +422,12 @@ static void exec_op(struct vt_line *L, int t0, int n, struct conn *self)
 		memset(&m, 0, sizeof(m));
 		m.h.id = 7; m.h.size = sizeof(m);
 		ev_begin(op, c->id);
+		/* while the call runs, every send() the library makes on a descriptor that the loop has registered for ANOTHER
+		 * connection is recorded (ForeignFd: the descriptor number of a connection that was torn down, reused since) */
+		void *keep = sending_for;
+		sending_for = c->ptr;
 		if (op[0] == 'R') qb_ipcs_response_send(c->ptr, &m, sizeof(m)); else qb_ipcs_event_send(c->ptr, &m, sizeof(m));
+		sending_for = keep;
 	} else if (!strcmp(op, "Stats")) {
 		c = carg(L, t0 + 1, self);
 		/* only where corosync-like servers read them: in connection_destroyed of a connection that was established and
